@@ -513,3 +513,43 @@ def allocation(run, it):
         finally:
             it.call_contracts.pop("_open_new_memmap", None)
     it.explore(h, "allocation", roots=[[0], [1]])
+
+    # the callee contract used above (`_open_new_memmap` returns an array of the given shape *filled with default_val*) is the
+    # function's own obligation: its real body on a stub of numpy.lib.format.open_memmap that records the slice assignment
+    def h_open(ctx):
+        mod = it.module(MOD)
+        ex = Exec(it, ctx, mod, mod.env, "harness")
+        made = []
+
+        def open_memmap(ex_, file_path, dtype=None, mode=None, shape=None, **kw):
+            a = RowArray(str(file_path), shape, "uninitialised-file-content", memmap=True)
+            a.mode, a.dtype = mode, dtype
+            made.append(a)
+            return a
+        np_ns = it.ext_modules["numpy"]
+        old = getattr(np_ns, "lib", None)
+        np_ns.lib = Namespace("numpy.lib", format=Namespace("numpy.lib.format", open_memmap=Native(open_memmap, "np.lib.format.open_memmap")))
+        run.function("mici.samplers._open_new_memmap")
+        try:
+            n = z3.Int("n_rows")
+            for lab, dv in (("nan", float("nan")), ("minus-one", -1), ("zero", 0), ("false", False)):
+                made.clear()
+                try:
+                    arr = ex.call(mod.resolve("_open_new_memmap", ctx), ["FILE", (n, 3), dv, "float64"], {})
+                except PyRaise as pr:
+                    ctx.run.ob(tag + "._open_new_memmap/no-exception", core.FAILED, "pyvc", detail=f"{exc_name(pr.exc)} {pr.exc.attrs.get('args')}")
+                    continue
+                full = [w for w in (arr.writes if isinstance(arr, RowArray) else []) if isinstance(w[0], slice) and w[0] == slice(None, None, None)]
+                same = bool(full) and (full[-1][1] is dv or full[-1][1] == dv or (dv != dv and full[-1][1] != full[-1][1]))
+                ok = len(made) == 1 and arr is made[0] and same and getattr(arr, "mode", None) == "w+"
+                ctx.run.ob(tag + "._open_new_memmap/new-file-is-filled-with-the-default-value", core.DISCHARGED if ok else core.FAILED, "pyvc",
+                           detail="" if ok else f"default {lab}: whole-array assignments {[(str(w[0]), w[1]) for w in getattr(arr, 'writes', [])]} "
+                           "(rows never reached -- e.g. after an interrupt -- must read as the fill value, not as the zeros of a fresh file)",
+                           witness=None if ok else {"default": lab},
+                           text="_open_new_memmap creates the file in mode w+ and assigns default_val to every element before returning it")
+        finally:
+            if old is None:
+                del np_ns.lib
+            else:
+                np_ns.lib = old
+    it.explore(h_open, "open_new_memmap")
